@@ -759,12 +759,21 @@ class FuncEmitter:
             if not i.attrs.get('priv'):
                 s.visible('memset', '')
                 if G.hb: s.S(f"VP_HB_STORE({A(0)}, {A(2)}, VP_O_NA);")
-            s.S(f"memset({A(0)}, {A(1)}, {A(2)});" + ("" if i.attrs.get('priv') else " vp_epoch++;"))
+            if args[2][1][0] == 'int':
+                s.S(f"memset({A(0)}, {A(1)}, {A(2)});" + ("" if i.attrs.get('priv') else " vp_epoch++;"))
+            else:
+                s.S(f"vp_memset_b({A(0)}, {A(1)}, {A(2)});" + ("" if i.attrs.get('priv') else " vp_epoch++;"))
         elif cn.startswith('@llvm.memcpy') or cn.startswith('@llvm.memmove'):
             if not i.attrs.get('priv'):
                 s.visible('memcpy', '')
                 if G.hb: s.S(f"VP_HB_LOAD({A(1)}, {A(2)}, VP_O_NA); VP_HB_STORE({A(0)}, {A(2)}, VP_O_NA);")
-            s.S(f"memmove({A(0)}, {A(1)}, {A(2)});" + ("" if i.attrs.get('priv') else " vp_epoch++;"))
+            if args[2][1][0] == 'int':
+                s.S(f"memmove({A(0)}, {A(1)}, {A(2)});" + ("" if i.attrs.get('priv') else " vp_epoch++;"))
+            else:
+                # cbmc's built-in memmove is imprecise for a symbolic length: element-wise copy loop with the element
+                # kind taken from the IR type the arguments were cast from
+                ek = s.elem_kind(args[0][1], args[1][1])
+                s.S(f"vp_memmove_{ek}({A(0)}, {A(1)}, {A(2)});" + ("" if i.attrs.get('priv') else " vp_epoch++;"))
         elif cn.startswith('@llvm.eh.typeid.for'):
             s.S(f"{D} = {G.typeid(args[0][1])};")
         elif cn.startswith('@llvm.trap'):
@@ -799,6 +808,41 @@ class FuncEmitter:
             s.S(f"{D} = {fn}({A(0)}, {n});")
         else:
             raise Unsupported("intrinsic " + cn)
+
+    def elem_kind(s, *vals):
+        """element kind for a symbolic-length copy: 'p' pointers, 'w' 32-bit, 'q' 64-bit, 'b' bytes"""
+        M = s.M
+        defs = {}
+        for il in s.X.blocks.values():
+            for j in il:
+                if j.dst: defs.setdefault(j.dst, j)
+        def scalar(t):
+            t = M.resolve(t)
+            while isinstance(t, (ArrT, StructT)):
+                if isinstance(t, ArrT): t = M.resolve(t.el)
+                else:
+                    fs = [M.resolve(f) for f in t.fields]
+                    if not fs: return None
+                    t = fs[0]
+            return t
+        def kind_of(v, depth=0):
+            if v[0] != 'reg' or depth > 6 or v[1] not in defs: return 'b'
+            j = defs[v[1]]
+            src = None
+            if j.op == 'cast' and j.a[0] == 'bitcast': src = (j.a[1], j.a[2])
+            elif j.op == 'gep': src = (PtrT(j.a[0]), j.a[1])
+            elif j.op == 'alloca': src = (PtrT(j.a[0]), None)
+            if src is None: return 'b'
+            ft = M.resolve(src[0])
+            if isinstance(ft, PtrT):
+                et = scalar(ft.to)
+                if isinstance(et, PtrT): return 'p'
+                if isinstance(et, IntT) and et.n == 32: return 'w'
+                if isinstance(et, IntT) and et.n == 64: return 'q'
+                if isinstance(et, IntT) and et.n == 8 and src[1] is not None: return kind_of(src[1], depth + 1)
+            return 'b'
+        kinds = set(kind_of(v) for v in vals)
+        return kinds.pop() if len(kinds) == 1 else 'b'
 
     # ---- final text
     def render(s, alloca_decl):
